@@ -12,7 +12,8 @@ _tree_reduce (depth-1 × combine, 1 × agg)     `treePlan` / `treeReduce` (1-d) 
 depth = ceil(log(n, k)) (a float formula)     a *parameter* `depth`; the theorems assume `n ≤ k ^ depth`,
                                               which the harness checks for the value dask computed
 chunk.sum / prod / any / all / chunk_min …     `Red` instances below (per-block partial results)
-arg_chunk / _arg_combine / arg_agg            `argChunk`, `argCombine` ((value, global flat index) pairs)
+arg_chunk / _arg_combine / arg_agg            `argChunk`, `argCombine`, `argCombL`/`argAggL` ((value, global flat index) pairs;
+                                              empty blocks contribute no candidate)
 chunk.topk / topk_aggregate                   `topkChunk`, `topkAgg`
 A block (an ndarray) is passed as its raveled element list; only the *reduced* axes are modelled
 (kept axes are pointwise, the harness slices them away).
@@ -185,6 +186,15 @@ def argChunk (lt : Int → Int → Bool) (bshape offset total : List Nat) (b : L
 def argCombine (lt : Int → Int → Bool) : List (Int × Nat) → Option (Int × Nat)
   | [] => none
   | p :: ps => some (ps.foldl (fun b q => if lt q.1 b.1 || (q.1 == b.1 && q.2 < b.2) then q else b) p)
+
+/-- arg tree on partial results that may be empty (a block that is empty along the reduced axis has no
+    candidate — the rule of `arg_chunk`/`arg_combine` after the empty-block fix): combine keeps ≤ 1 candidate -/
+def argCombL (lt : Int → Int → Bool) (ps : List (List (Int × Nat))) : List (Int × Nat) :=
+  (argCombine lt ps.flatten).toList
+
+/-- final `arg_agg`: `none` = NumPy raises (no data at all) -/
+def argAggL (lt : Int → Int → Bool) (ps : List (List (Int × Nat))) : Option (Int × Nat) :=
+  argCombine lt ps.flatten
 
 /-! ### top-k: values are kept as multisets, represented by sorted lists -/
 
